@@ -81,6 +81,7 @@ def scripted(f, chars, peeks=None, env=None, max_adv=None, stop_at_lexer_calls=T
                 return None
         return None
     oracle.fb = scripted.fb
+    scripted.state = st
     e = dict(env or {})
     try:
         kind, b, e2 = absint.run_fragment(f, 0, e, oracle=oracle, stuck_ok=True, max_visits=len(chars) + 1)
